@@ -85,6 +85,9 @@ impl SnapVecH {
     pub fn get(&self, i: usize) -> SnapH {
         SnapH(self.0[i])
     }
+    pub fn index_at(&self, i: usize) -> u64 {
+        self.0[i].index.0
+    }
     pub fn truncate(&mut self, n: usize) {
         self.0.truncate(n);
     }
